@@ -589,7 +589,11 @@ func verifIndexFaults(t *testing.T, em *verifEmitter, id int, batch int) {
 		}
 	}
 	cmp("before the faults")
-	for k := 0; k < 400; k++ {
+	kstep := 1
+	if verifTier() != "thorough" {
+		kstep = 2 // quick tier: every other call of the batch (the post-commit calls are all covered below)
+	}
+	for k := 0; k < 400; k += kstep {
 		pre := verifSnapshot(t, a.store, a.path, env, false)
 		preTip := verifTip(a.store)
 		// the first blocks pay the host (its outputs are created, mature and are re-proved
@@ -641,7 +645,7 @@ func verifIndexFaults(t *testing.T, em *verifEmitter, id int, batch int) {
 			em.Monitor("index-tip-differs-from-store-after-failed-sync", fmt.Sprintf("k=%d (trace %s): the store's marker is %v, the index manager's tip %v", k, trace, st, a.index.Tip()))
 		}
 		// resume: in-process (the next block triggers a sync) or after a restart
-		if k%2 == 1 {
+		if (k/kstep)%2 == 1 {
 			a.Close()
 			a = open("a")
 			em.Count("index-resume:restart")
